@@ -311,6 +311,57 @@ def dead_twice_bound(a):
         w = 2
     return a
 
+def forwarded_temp(a):
+    t = a * 2
+    b = t
+    c = t + 1
+    return (b, c)
+
+def forwarded_temp_target_rebound(a):
+    t = a * 2
+    b = t
+    b = b + 100
+    c = t + 1
+    return (b, c)
+
+def forwarded_temp_read_elsewhere(a):
+    if a > 0:
+        t = a * 2
+        b = t
+    else:
+        t = 0
+        b = -1
+    return (b, t)
+
+def _helper_draw(xs, lo):
+    if not xs:
+        return lo, xs
+    p = xs[0] + lo
+    return p, xs[1:]
+
+def uses_pair_helper(xs, lo):
+    out = []
+    for _ in range(3):
+        p, xs = _helper_draw(xs, lo)
+        out.append(p)
+    return out, xs
+
+def tuple_split_sequential(a, b):
+    x, y = a + 1, b + a
+    return (x, y)
+
+def tuple_split_blocked_swap(a, b):
+    a, b = b, a
+    return (a, b)
+
+def tuple_split_blocked_later_reads_earlier(a, b):
+    a, c = b + 1, a * 2
+    return (a, c)
+
+def tuple_split_side_effect_order(xs):
+    a, b = xs.pop(), xs.pop()
+    return (a, b, xs)
+
 def alias_source_rebound_later(a):
     c = a
     d = c
@@ -570,6 +621,9 @@ ARGS = {
     "uses_procedure_helper": [([1, 2, 3], 2), ([1, 2, 3], 9), ([], 1)], "uses_generator_helper": [([1, 2, 3, 4, 5],), ([],)],
     "uses_with_helper": [(_Lock(), 1, 2), (_Lock(), 1, -1)], "uses_helper_twice": [(7, -1), (2, 3)],
     "uses_flag_helper_default": [([1, 2],)], "uses_flag_helper_none": [([1],)], "constant_comparisons": [(4,)], "dead_twice_bound": [(1,), (-1,)],
+    "forwarded_temp": [(3,)], "forwarded_temp_target_rebound": [(3,)], "forwarded_temp_read_elsewhere": [(3,), (-3,)],
+    "uses_pair_helper": [([1, 2], 10), ([], 5), ([1, 2, 3, 4], 0)], "tuple_split_sequential": [(1, 2)], "tuple_split_blocked_swap": [(1, 2)],
+    "tuple_split_blocked_later_reads_earlier": [(1, 2)], "tuple_split_side_effect_order": [([1, 2, 3],)],
     "alias_source_rebound_later": [(2,)], "field_read_then_store": [(_P(9),)], "element_read_then_pop": [([1, 2, 3],)],
     "temp_into_comprehension_scope": [(5,)], "temp_into_first_iterable": [(2,)], "literal_loop_with_break_must_stay": [(True, True, []), (False, True, [])],
     "counting_while_else_adjacent": [([1, 2, 3], 2), ([1, 2, 3], 9), ([], 1)], "counting_while_with_continue_must_stay": [([1, -2, 3],)],
